@@ -129,6 +129,7 @@ type Cluster struct {
 	Storage  string
 	Docs     map[string]*Doc
 	Loopback bool // document writes are appended to the vbucket history and streamed back
+	LoopbackReplyDelay time.Duration // the write's DCP event is pushed first, its reply follows after this delay
 	Collections map[string]uint32
 	Snappy   bool
 	Fragment bool // fragment TCP writes randomly
@@ -1050,6 +1051,9 @@ func (c *conn) subdocMutate(p *pkt, key []byte, cid uint32) {
 	}
 	if loop {
 		cl.Append(p.vb, []Item{{Kind: KMutation, Key: append([]byte{}, key...), Value: val, Cid: cid, Cas: cas}})
+		if cl.LoopbackReplyDelay > 0 {
+			time.Sleep(cl.LoopbackReplyDelay)
+		}
 	}
 	c.reply(p, 0, nil, nil, nil, cas)
 }
